@@ -189,7 +189,7 @@ def run_check(prop_id, tier, seed):
         traceback.print_exc()
 
     # ---- 2. build: driver (model) first, then the proof obligations of this property
-    theorems = leanbuild.load_theorems().get(prop_id, [])
+    theorems = leanbuild.load_theorems(prop_id)
     names = [t['name'] for t in theorems]
     b1 = leanbuild.build(['xdocdriver'])
     if not b1['ok']:
